@@ -514,7 +514,8 @@ class IdealPoint(Point):
 
 
         result = utils.zeros(np.array(theta).shape + (dimension + 1,),
-                             like=like, dtype=dtype, base_ring=base_ring)
+                             like=like, dtype=dtype, base_ring=base_ring,
+                             integer_type=False)
 
         result[..., 0] = one
 
@@ -1331,7 +1332,8 @@ class TangentVector(PointPair):
         kleinian_shape[-1] -= 1
 
         kleinian_pt = utils.zeros(kleinian_shape,
-                                  like=self.proj_data)
+                                  like=self.proj_data,
+                                  integer_type=False)
 
         kleinian_pt[..., 0] = hyp_to_affine_dist(distance)
 
@@ -1853,7 +1855,7 @@ class Isometry(projective.Transformation, HyperbolicObject):
             like = block_elliptic
 
         mat = utils.zeros((dimension + 1, dimension + 1),
-                          like=like, **kwargs)
+                          like=like, integer_type=False, **kwargs)
 
         # add one to preserve base_ring
         mat[0,0] = utils.number(1, like=like, **kwargs)
@@ -1889,7 +1891,7 @@ class Isometry(projective.Transformation, HyperbolicObject):
             like = angle
 
         affine = utils.identity(
-            dimension, like=like, **kwargs
+            dimension, like=like, integer_type=False, **kwargs
         )
 
         affine[0:2, 0:2] = utils.rotation_matrix(
